@@ -88,6 +88,7 @@ type tgen struct {
 	api        *serix.API
 	registered map[reflect.Type]bool
 	ifaceDone  map[int]bool
+	ifaceCodes map[reflect.Type][]uint32 // object codes of the registered alternatives of an interface type
 	nField     int
 	nextCode   uint32
 	maxDepth   int
@@ -145,7 +146,7 @@ const (
 
 // GenEnv builds a random registered universe from the generator.
 func GenEnv(rng *hx.Rng, maxDepth int) *Env {
-	g := &tgen{rng: rng, api: serix.NewAPI(), registered: map[reflect.Type]bool{}, ifaceDone: map[int]bool{},
+	g := &tgen{rng: rng, api: serix.NewAPI(), registered: map[reflect.Type]bool{}, ifaceDone: map[int]bool{}, ifaceCodes: map[reflect.Type][]uint32{},
 		nextCode: uint32(rng.Intn(200)), maxDepth: maxDepth}
 	var t reflect.Type
 	var ps posSettings
@@ -294,6 +295,25 @@ func (g *tgen) collectionSettings(t reflect.Type, c ctx, elemCoded bool, bytesLi
 			}
 			if mode != 0 {
 				rules.ValidationMode, hasRules = mode, true
+			}
+			// must-occur rules over the codes of the element interface's alternatives (a subset; now and then a
+			// code nobody has), combined with whatever else was drawn above
+			if t.Kind() == reflect.Slice || t.Kind() == reflect.Array {
+				if codes := g.ifaceCodes[t.Elem()]; len(codes) > 0 && g.rng.Chance(2, 3) {
+					rules.MustOccur = serializer.TypePrefixes{}
+					for _, c := range codes {
+						if g.rng.Chance(2, 3) {
+							rules.MustOccur[c] = struct{}{}
+						}
+					}
+					if len(rules.MustOccur) == 0 {
+						rules.MustOccur[codes[0]] = struct{}{}
+					}
+					if g.rng.Chance(1, 10) {
+						rules.MustOccur[codes[0]+1000] = struct{}{}
+					}
+					hasRules = true
+				}
 			}
 			if g.rng.Chance(1, 2) {
 				ts = ts.WithLexicalOrdering(g.rng.Chance(4, 5))
@@ -673,10 +693,13 @@ func (g *tgen) ifaceType(depth int) reflect.Type {
 				continue
 			}
 		}
+		var code uint32
 		if u8 {
-			g.register(at, serix.TypeSettings{}.WithObjectType(uint8(g.freshCode()%256)))
+			code = g.freshCode() % 256
+			g.register(at, serix.TypeSettings{}.WithObjectType(uint8(code)))
 		} else {
-			g.register(at, serix.TypeSettings{}.WithObjectType(g.freshCode()))
+			code = g.freshCode()
+			g.register(at, serix.TypeSettings{}.WithObjectType(code))
 		}
 		var obj any
 		if at.Kind() == reflect.Struct && g.rng.Bool() {
@@ -688,6 +711,7 @@ func (g *tgen) ifaceType(depth int) reflect.Type {
 			// e.g. a type already registered with another denotation: leave this alternative out
 			continue
 		}
+		g.ifaceCodes[ifaceTypes[k]] = append(g.ifaceCodes[ifaceTypes[k]], code)
 	}
 
 	return ifaceTypes[k]
